@@ -62,6 +62,7 @@ type gen struct {
 	set  *Set
 	n    int // name counter
 	mods []*Module
+	all  []*Module // modules and submodules
 }
 
 func (g *gen) name(p string) string { g.n++; return fmt.Sprintf("%s%d", p, g.n) }
@@ -85,6 +86,7 @@ func GenerateSet(t *tape.Tape, illFormed bool) *Set {
 			}
 		}
 		g.mods = append(g.mods, m)
+		g.all = append(g.all, m)
 	}
 	// submodules of m0 (and maybe of the last module)
 	nsub := t.Draw(3)
@@ -110,8 +112,10 @@ func GenerateSet(t *tape.Tape, illFormed bool) *Set {
 			}
 		}
 		subs = append(subs, sm)
+		g.all = append(g.all, sm)
 	}
 	all := append(append([]*Module{}, g.mods...), subs...)
+	g.all = all
 	for _, m := range all {
 		if t.Draw(3) > 0 {
 			m.Root.Add(S("revision", []string{"2020-01-01", "2021-06-30"}[t.Draw(2)]))
@@ -155,23 +159,54 @@ func GenerateSet(t *tape.Tape, illFormed bool) *Set {
 	return g.set
 }
 
-// visible modules from m: itself plus imports (for submodules: the owner's prefix is its own)
-func (g *gen) visible(m *Module) []*Module {
-	v := []*Module{}
+// byName finds a generated module or submodule.
+func (g *gen) byName(n string) *Module {
+	for _, x := range g.all {
+		if x.Name == n {
+			return x
+		}
+	}
+	return nil
+}
+
+// owner is the module a submodule belongs to (a module owns itself).
+func (g *gen) owner(m *Module) *Module {
 	if m.Sub {
-		for _, x := range g.mods {
-			if x.Name == m.BelongsTo {
-				v = append(v, x)
+		if o := g.byName(m.BelongsTo); o != nil {
+			return o
+		}
+	}
+	return m
+}
+
+// visible lists the modules/submodules whose definitions m may reference:
+// itself, the submodules it includes, and every imported module together with
+// the submodules that module includes. A submodule does NOT see its owner.
+func (g *gen) visible(m *Module) []*Module {
+	v := []*Module{m}
+	add := func(x *Module) {
+		for _, y := range v {
+			if y == x {
+				return
 			}
 		}
-	} else {
-		v = append(v, m)
+		v = append(v, x)
 	}
 	for _, st := range m.Root.Kids {
-		if st.Kw == "import" {
-			for _, x := range g.mods {
-				if x.Name == st.Arg {
-					v = append(v, x)
+		switch st.Kw {
+		case "include":
+			if x := g.byName(st.Arg); x != nil && x != m {
+				add(x)
+			}
+		case "import":
+			if x := g.byName(st.Arg); x != nil && !x.Sub && x != g.owner(m) {
+				add(x)
+				for _, k := range x.Root.Kids {
+					if k.Kw == "include" {
+						if y := g.byName(k.Arg); y != nil {
+							add(y)
+						}
+					}
 				}
 			}
 		}
@@ -181,21 +216,13 @@ func (g *gen) visible(m *Module) []*Module {
 
 // ref renders a reference to name defined in module def as seen from m.
 func (g *gen) ref(m, def *Module, name string) string {
-	own := m.Name
-	if m.Sub {
-		own = m.BelongsTo
-	}
-	defName := def.Name
-	if def.Sub {
-		defName = def.BelongsTo
-	}
-	if defName == own {
+	if g.owner(m) == g.owner(def) {
 		if g.t.Rare(3) {
 			return m.Prefix + ":" + name
 		}
 		return name
 	}
-	return def.Prefix + ":" + name
+	return g.owner(def).Prefix + ":" + name
 }
 
 func (g *gen) features(m *Module) {
@@ -215,14 +242,6 @@ func (g *gen) features(m *Module) {
 				}{v, fn})
 			}
 		}
-		for _, fn := range m.Features {
-			if m.Sub {
-				cands = append(cands, struct {
-					m *Module
-					n string
-				}{m, fn})
-			}
-		}
 		if len(cands) > 0 && t.Coin() {
 			c := cands[t.Draw(len(cands))]
 			f.Add(S("if-feature", g.ref(m, c.m, c.n)))
@@ -230,10 +249,7 @@ func (g *gen) features(m *Module) {
 		}
 		m.Root.Add(f)
 		m.Features = append(m.Features, f.Arg)
-		own := m.Name
-		if m.Sub {
-			own = m.BelongsTo
-		}
+		own := g.owner(m).Name
 		if t.Draw(3) > 0 {
 			g.set.Features = append(g.set.Features, own+":"+f.Arg)
 		}
@@ -281,9 +297,6 @@ func (g *gen) typeStmt(m *Module, depth int) (*Stmt, string) {
 	for _, v := range g.visible(m) {
 		tds = append(tds, v.Typedefs...)
 	}
-	if m.Sub {
-		tds = append(tds, m.Typedefs...)
-	}
 	if len(tds) > 0 && t.Draw(3) == 2 {
 		td := tds[t.Draw(len(tds))]
 		ty := S("type", g.ref(m, td.Mod, td.Name))
@@ -292,14 +305,21 @@ func (g *gen) typeStmt(m *Module, depth int) (*Stmt, string) {
 		case "int":
 			lo, hi := td.Lo, td.Hi
 			if hi-lo > 4 && t.Coin() {
-				lo, hi = lo+1, hi-1
+				hi = hi - 1
+				if !td.HasDef {
+					lo = lo + 1
+				}
 				ty.Add(S("range", fmt.Sprintf("%d..%d", lo, hi)))
 				g.set.Probes["typedef_range_narrowed"] = true
 			}
 			def = fmt.Sprint(lo)
 		case "string":
 			if td.Hi-td.Lo > 2 && t.Coin() {
-				ty.Add(S("length", fmt.Sprintf("%d..%d", td.Lo+1, td.Hi-1)))
+				lo := td.Lo
+				if !td.HasDef {
+					lo++
+				}
+				ty.Add(S("length", fmt.Sprintf("%d..%d", lo, td.Hi-1)))
 			}
 			def = strings.Repeat("d", td.Lo+1)
 		case "enum":
@@ -413,23 +433,26 @@ func (g *gen) typedefs(m *Module) {
 		for _, v := range g.visible(m) {
 			tds = append(tds, v.Typedefs...)
 		}
-		if m.Sub {
-			tds = append(tds, m.Typedefs...)
-		}
 		if len(tds) > 0 && t.Coin() {
 			b := tds[t.Draw(len(tds))]
 			ty = S("type", g.ref(m, b.Mod, b.Name))
-			td.Base, td.Lo, td.Hi, td.Enums = b.Base, b.Lo, b.Hi, b.Enums
+			td.Base, td.Lo, td.Hi, td.Enums, td.HasDef = b.Base, b.Lo, b.Hi, b.Enums, b.HasDef
 			switch b.Base {
 			case "int":
 				if td.Hi-td.Lo > 6 && t.Coin() {
-					td.Lo, td.Hi = td.Lo+2, td.Hi-2
+					td.Hi = td.Hi - 2
+					if !b.HasDef {
+						td.Lo = td.Lo + 2
+					}
 					ty.Add(S("range", fmt.Sprintf("%d..%d", td.Lo, td.Hi)))
 				}
 				def = fmt.Sprint(td.Lo)
 			case "string":
 				if td.Hi-td.Lo > 4 && t.Coin() {
-					td.Lo, td.Hi = td.Lo+1, td.Hi-1
+					td.Hi = td.Hi - 1
+					if !b.HasDef {
+						td.Lo = td.Lo + 1
+					}
 					ty.Add(S("length", fmt.Sprintf("%d..%d", td.Lo, td.Hi)))
 				}
 				def = strings.Repeat("d", td.Lo+1)
@@ -696,9 +719,6 @@ func (g *gen) dataNode(m *Module, parent *DNode, depth int) *DNode {
 		for _, v := range g.visible(m) {
 			gs = append(gs, v.Groupings...)
 		}
-		if m.Sub {
-			gs = append(gs, m.Groupings...)
-		}
 		if len(gs) == 0 {
 			return g.dataNode(m, parent, 3)
 		}
@@ -831,14 +851,7 @@ func (g *gen) augments(m *Module) {
 		}
 		target := cs[t.Draw(len(cs))]
 		a := S("augment", g.schemaPath(m, target))
-		own := m
-		if m.Sub {
-			for _, x := range g.mods {
-				if x.Name == m.BelongsTo {
-					own = x
-				}
-			}
-		}
+		own := g.owner(m)
 		for k := 1 + t.Draw(2); k > 0; k-- {
 			var c *DNode
 			if t.Coin() {
@@ -867,7 +880,7 @@ func (g *gen) augments(m *Module) {
 func (g *gen) deviations(m *Module) {
 	t := g.t
 	for _, v := range g.visible(m) {
-		if v == m || !t.Rare(4) {
+		if g.owner(v) == g.owner(m) || v.Sub || !t.Rare(4) {
 			continue
 		}
 		// deviate a leaf of an imported module
